@@ -720,8 +720,13 @@ func c18Tokens(s string) []c18HTok {
 		}
 		t := z.Token()
 		h := c18HTok{typ: tt, name: t.Data, attr: t.Attr}
-		if tt == html.TextToken || tt == html.CommentToken || tt == html.DoctypeToken {
+		if tt == html.TextToken {
 			h.name, h.text = "", t.Data
+		}
+		if tt == html.CommentToken || tt == html.DoctypeToken {
+			// compared by kind only: x/net/html reports the data of a bogus comment such as "<!>" differently at
+			// end of input ("<!>" alone -> ">", "<!>x" -> ""), and comments never survive the policy anyway
+			h.name, h.text = "", ""
 		}
 		res = append(res, h)
 	}
